@@ -742,7 +742,8 @@ pub async fn run_net_scenario(sc: &Value, workdir: &str) -> Vec<Value> {
                     let tag = format!("rj{}", r).into_bytes();
                     let mut served = false;
                     let mut last_err = String::new();
-                    for _ in 0..60 {
+                    // (patient: on a loaded machine the registration may lag the handshake; the defect is permanent)
+                    for _ in 0..600 {
                         let f = sock.as_mut().unwrap().send(to_msg(&[tag.clone()])).unwrap();
                         match tokio::time::timeout(Duration::from_millis(500), f).await {
                             Ok(Ok(())) => {
